@@ -406,8 +406,10 @@ structure ArrayBuf where
   b : Bytes
 def array_repeat {ρ} (x n : Nat) : M ρ ArrayBuf := pure ⟨n, List.replicate n (UInt8.ofNat x)⟩
 /-- `ch.encode_utf8(&mut buf)`: the bytes of the character, as a `&str` (the buffer must hold them) -/
-def Chr.rs_encode_utf8 {ρ} (c : Chr) (buf : ArrayBuf) : M ρ Str := fun s =>
-  if c.b.length ≤ buf.n then .next ⟨c.b⟩ s else .ub .oob
+class EncodeBuf (β : Type) where
+  enc : {ρ : Type} → Chr → β → M ρ Str
+instance : EncodeBuf ArrayBuf := ⟨fun c buf s => if c.b.length ≤ buf.n then .next ⟨c.b⟩ s else .ub .oob⟩
+def Chr.rs_encode_utf8 {ρ β} [EncodeBuf β] (c : Chr) (buf : β) : M ρ Str := EncodeBuf.enc c buf
 
 /-- the tuple-struct constructor `LeanString(repr)`: `repr(transparent)` -/
 def LeanString {ρ} (r : Handle) : M ρ Handle := pure r
@@ -747,17 +749,48 @@ def Repr.as_bytes {ρ} : M ρ RawSlice := fun s =>
   | .ok t => .next ⟨t⟩ s
   | .error u => .ub u
 /-- `slice::from_raw_parts_mut(ptr, cap)` over the storage `self` owns -/
-def slice.from_raw_parts_mut {ρ} (p : RawPtr) (cap : Nat) : M ρ SliceMut := fun s =>
+class RawPartsMut (π : Type) where
+  parts : {ρ : Type} → π → Nat → M ρ SliceMut
+instance : RawPartsMut RawPtr := ⟨fun p cap s =>
   match p.own, p.h with
   | true, .inl raw => if cap ≤ raw.length then .next ⟨0, cap⟩ s else .ub .oob
   | false, .heap a _ => (match s.hp.get? a with | some b => if cap ≤ b.cap then .next ⟨0, cap⟩ s else .ub .oob | none => .ub .useAfterFree)
   | true, .stat _ _ => .ub .writeStatic        -- a static value taken for an inline one
-  | _, _ => .ub .oob
+  | _, _ => .ub .oob⟩
+/-- a sub-slice of the storage `self` owns, from a pointer into it (bounds are checked where it is written) -/
+instance : RawPartsMut MutPtr := ⟨fun p n s => .next ⟨p.off, n⟩ s⟩
+def slice.from_raw_parts_mut {ρ π} [RawPartsMut π] (p : π) (cap : Nat) : M ρ SliceMut := RawPartsMut.parts p cap
 def SliceMut.rs_get_unchecked_mut_to {ρ} (sl : SliceMut) (r : Nat) : M ρ SliceMut := fun s =>
   if r ≤ sl.len then .next ⟨sl.off, r⟩ s else .ub .oob
 def str.from_utf8_unchecked_mut {ρ} (sl : SliceMut) : M ρ SliceMut := pure sl
 /-- a string literal of the source, as its bytes -/
 def Str.lit (b : Bytes) : Str := ⟨b⟩
+
+/-! ## `while` loops, `FnMut` closures of the caller, drop guards (`retain`) -/
+
+/-- `while c { body }` over the locals the body assigns; the caller supplies fuel, running out of it is an alarm -/
+def whileLoop {ρ σ} (cond : σ → M ρ Bool) (body : σ → M ρ σ) : Nat → σ → M ρ σ
+  | 0, _ => alarm .diverge
+  | fuel + 1, x => Rt.bind (cond x) fun c => if c then Rt.bind (body x) (whileLoop cond body fuel) else Rt.pure x
+
+/-- `impl FnMut(char) -> bool` of the caller: user code as data — the answers it will give, `none` = it panics;
+calling it consumes one (an exhausted list answers `true`, as the hand model's `retainScan`) -/
+structure Pred where
+  answers : List (Option Bool)
+def Pred.rs_call_mut {ρ} (p : Pred) (_c : Chr) : M ρ (Bool × Pred) := fun s =>
+  match p.answers.headD (some true) with
+  | none => .pcb s
+  | some b => .next (b, ⟨p.answers.tail⟩) s
+
+def SliceMut.rs_get_unchecked_range {ρ} (sl : SliceMut) (a b : Nat) : M ρ SliceMut := fun s =>
+  if a ≤ b ∧ b ≤ sl.len then .next ⟨sl.off + a, b - a⟩ s else .ub .oob
+/-- `ch.encode_utf8(dst)` into a sub-slice of the storage `self` owns -/
+instance : EncodeBuf SliceMut := ⟨fun c sl s =>
+  if c.b.length ≤ sl.len then
+    match writeBytes s.hp s.self sl.off c.b with
+    | .ok (hp', r') => .next ⟨c.b⟩ { s with hp := hp', self := r' }
+    | .error u => .ub u
+  else .pidx s⟩
 
 /-! ## Constants the source names -/
 
